@@ -15,6 +15,30 @@ SEM = [  # (text, the range the error must name)
     ("(ab){2,1}?", "{2,1}"), ("x[b-a]{2}", "b-a"), ("a{1,0}b", "{1,0}"), ("[\\x7A-\\x61]", "z-a"),
     ("(a|b{5,2})", "{5,2}"), ("[^c-a]", "c-a"), ("a{10,9}", "{10,9}"),
 ]
+
+
+def descending_ranges():
+    """Every descending character range over a set of code points that includes the metacharacters, each bound written in
+    every documented form (the character itself when it needs no escape, \\xHH, \\xHHHH), plain and inside a negated
+    group: all are sentences of the documented grammar, and all must be rejected with an error that names the range."""
+    pts = [0x21, 0x2D, 0x30, 0x39, 0x41, 0x5A, 0x5B, 0x5C, 0x5D, 0x5E, 0x61, 0x7A, 0x7E]
+
+    def forms(c):
+        f = ["\\x%02X" % c, "\\x%04X" % c]
+        if chr(c).isalnum():
+            f.append(chr(c))
+        return f
+    out = []
+    for lo in pts:
+        for hi in pts:
+            if lo > hi:
+                for a in forms(lo):
+                    for b in forms(hi):
+                        out.append(("[%s-%s]" % (a, b), "%s-%s" % (chr(lo), chr(hi))))
+                out.append(("x[^0%s-%s]+" % (forms(lo)[0], forms(hi)[0]), "%s-%s" % (chr(lo), chr(hi))))
+    return out
+
+
 HAND_CANON = ["[a-c]-a", "[0-9]-[0-9]", "[a-c]-", "a-b", "[a\\x2D]", "-?[0-9]+(\\.[0-9]+)?", "[A-Za-z_][0-9A-Za-z_]*",
               "\"([\\x21\\x23-\\x5B\\x5D-\\x7E]|\\\\[\\x21-\\x7E])+\"", "(#|//)[\\x09\\x20-\\x7E]*|/\\*[\\x09\\x0A\\x0D\\x20-\\x7E]*?\\*/"]
 
@@ -79,7 +103,7 @@ def run(ck):
     canon = vp.read_ndjson(os.path.join(ck.work, "canon_in.ndjson"))
     canon += [{"text": t, "kind": "canon", "fam": "hand", "expect": ""} for t in HAND_CANON]
     # (b') meaningless ranges
-    sem = [{"text": t, "kind": "sem", "fam": "sem", "expect": e} for (t, e) in SEM]
+    sem = [{"text": t, "kind": "sem", "fam": "sem", "expect": e} for (t, e) in SEM + descending_ranges()]
     # (c) every single-character edit of a sample of valid patterns
     rnd = random.Random(ck.seed)
     pool = [c["text"] for c in canon if c["fam"] in ("F2", "F3", "F5", "F8", "hand", "F6") and len(c["text"]) <= 24]
